@@ -1,4 +1,5 @@
 import Pkgcore.Spec.C10Solver
+import Pkgcore.Proofs.C10
 /-!
 # C10 solver model — helper lemmas (frame of push/pop, forward checking, the search)
 -/
@@ -1205,3 +1206,225 @@ theorem flatten_map_nil {α β : Type} : ∀ vals : List α, ((vals.map fun _ =>
   | _ :: vs => by simp [flatten_map_nil vs]
 
 end Pkgcore.C10.Solver
+
+/-! ## `find_constraint_satisfaction` on the solver model -/
+namespace Pkgcore.C10
+open Pkgcore.C09 Pkgcore.C10.Spec
+
+@[simp] theorem flagsOfL_nil : flagsOfL [] = [] := by simp [flagsOfL]
+@[simp] theorem flagsOfL_cons (c cs) : flagsOfL (c :: cs) = flagsOf c ++ flagsOfL cs := by simp [flagsOfL]
+
+theorem anySingle_cons (on c cs) : anySingle on (c :: cs) = (evalSingle on c || anySingle on cs) := by simp [anySingle]
+theorem countSingle_cons (on c cs) :
+    countSingle on (c :: cs) = (if evalSingle on c then 1 else 0) + countSingle on cs := by simp [countSingle]
+
+mutual
+/-- a compiled rule only looks at the flags `iter_flags` lists -/
+theorem evalSingle_congr (on on' : List Tok) : ∀ t : Dep, (∀ x ∈ flagsOf t, on.contains x = on'.contains x) →
+    evalSingle on t = evalSingle on' t
+  | .leaf k r, h => by
+      have := h (if k.head? = some '!' then k.tail else k) (by simp [flagsOf])
+      simp only [evalSingle, lit]
+      split
+      · next hk => simp only [hk, if_true] at this; rw [this]
+      · next hk => simp only [hk, if_false] at this; rw [this]
+  | .cond n f cs, h => by
+      have h1 := h f (by simp [flagsOf])
+      have h2 := allSingle_congr on on' cs (fun x hx => h x (by simp [flagsOf, hx]))
+      simp only [evalSingle, h1, h2]
+  | .grp .and cs, h => by
+      simp only [evalSingle]; exact allSingle_congr on on' cs (fun x hx => h x (by simpa [flagsOf] using hx))
+  | .grp .or cs, h => by
+      simp only [evalSingle]; exact anySingle_congr on on' cs (fun x hx => h x (by simpa [flagsOf] using hx))
+  | .grp .justOne cs, h => by
+      simp only [evalSingle]; rw [countSingle_congr on on' cs (fun x hx => h x (by simpa [flagsOf] using hx))]
+  | .grp .atMostOne cs, h => by
+      simp only [evalSingle]; rw [countSingle_congr on on' cs (fun x hx => h x (by simpa [flagsOf] using hx))]
+theorem allSingle_congr (on on' : List Tok) : ∀ cs : List Dep, (∀ x ∈ flagsOfL cs, on.contains x = on'.contains x) →
+    allSingle on cs = allSingle on' cs
+  | [], _ => by simp
+  | c :: cs, h => by
+      rw [allSingle_cons, allSingle_cons, evalSingle_congr on on' c (fun x hx => h x (by simp [hx])),
+        allSingle_congr on on' cs (fun x hx => h x (by simp [hx]))]
+theorem anySingle_congr (on on' : List Tok) : ∀ cs : List Dep, (∀ x ∈ flagsOfL cs, on.contains x = on'.contains x) →
+    anySingle on cs = anySingle on' cs
+  | [], _ => by simp [anySingle]
+  | c :: cs, h => by
+      rw [anySingle_cons, anySingle_cons, evalSingle_congr on on' c (fun x hx => h x (by simp [hx])),
+        anySingle_congr on on' cs (fun x hx => h x (by simp [hx]))]
+theorem countSingle_congr (on on' : List Tok) : ∀ cs : List Dep, (∀ x ∈ flagsOfL cs, on.contains x = on'.contains x) →
+    countSingle on cs = countSingle on' cs
+  | [], _ => by simp [countSingle]
+  | c :: cs, h => by
+      rw [countSingle_cons, countSingle_cons, evalSingle_congr on on' c (fun x hx => h x (by simp [hx])),
+        countSingle_congr on on' cs (fun x hx => h x (by simp [hx]))]
+end
+
+theorem any_congr_mem {α : Type} (p q : α → Bool) : ∀ l : List α, (∀ x ∈ l, p x = q x) → l.any p = l.any q
+  | [], _ => rfl
+  | x :: xs, h => by
+      simp only [List.any_cons, h x (by simp), any_congr_mem p q xs (fun y hy => h y (List.mem_cons_of_mem _ hy))]
+
+theorem MC.mem_flags (c : MC) (x : Tok) : x ∈ c.flags ↔ (x ∈ c.conds.map (·.2) ∨ x ∈ flagsOf c.body) := by
+  unfold MC.flags; rw [mem_dedup, List.mem_append]
+
+theorem MC.eval_congr (c : MC) (on on' : List Tok) (h : ∀ x ∈ c.flags, on.contains x = on'.contains x) :
+    c.eval on = c.eval on' := by
+  unfold MC.eval
+  rw [evalSingle_congr on on' c.body (fun x hx => h x ((c.mem_flags x).mpr (Or.inr hx)))]
+  congr 1
+  apply any_congr_mem
+  intro e he
+  rw [h e.2 ((c.mem_flags e.2).mpr (Or.inl (List.mem_map.mpr ⟨e, he, rfl⟩)))]
+
+mutual
+theorem toMultiple_flags : ∀ (t : Dep) (mc : MC), mc ∈ toMultiple t → ∀ x ∈ mc.flags, x ∈ flagsOf t
+  | .cond n f cs, mc, hm, x, hx => by
+      simp only [toMultiple, List.mem_map] at hm
+      obtain ⟨c, hc, rfl⟩ := hm
+      rw [MC.mem_flags] at hx
+      simp only [List.map_cons, List.mem_cons] at hx
+      simp only [flagsOf, List.mem_cons]
+      rcases hx with (h | h) | h
+      · exact Or.inl h
+      · exact Or.inr (toMultipleL_flags cs c hc x ((c.mem_flags x).mpr (Or.inl h)))
+      · exact Or.inr (toMultipleL_flags cs c hc x ((c.mem_flags x).mpr (Or.inr h)))
+  | .grp .and cs, mc, hm, x, hx => by
+      simp only [toMultiple] at hm
+      simpa [flagsOf] using toMultipleL_flags cs mc hm x hx
+  | .grp .or cs, mc, hm, x, hx => by
+      simp only [toMultiple, List.mem_singleton] at hm; subst hm
+      simpa [MC.mem_flags] using hx
+  | .grp .justOne cs, mc, hm, x, hx => by
+      simp only [toMultiple, List.mem_singleton] at hm; subst hm
+      simpa [MC.mem_flags] using hx
+  | .grp .atMostOne cs, mc, hm, x, hx => by
+      simp only [toMultiple, List.mem_singleton] at hm; subst hm
+      simpa [MC.mem_flags] using hx
+  | .leaf k r, mc, hm, x, hx => by
+      simp only [toMultiple, List.mem_singleton] at hm; subst hm
+      simpa [MC.mem_flags] using hx
+theorem toMultipleL_flags : ∀ (cs : List Dep) (mc : MC), mc ∈ toMultipleL cs → ∀ x ∈ mc.flags, x ∈ flagsOfL cs
+  | [], mc, hm, _, _ => by simp at hm
+  | c :: cs, mc, hm, x, hx => by
+      simp only [toMultipleL_cons, List.mem_append] at hm
+      simp only [flagsOfL_cons, List.mem_append]
+      rcases hm with hm | hm
+      · exact Or.inl (toMultiple_flags c mc hm x hx)
+      · exact Or.inr (toMultipleL_flags cs mc hm x hx)
+end
+
+theorem flagsOf_ne_nil : ∀ t : Dep, nonEmpty t = true → flagsOf t ≠ []
+  | .leaf k r, _ => by simp [flagsOf]
+  | .cond n f cs, _ => by simp [flagsOf]
+  | .grp kind [], h => by simp [nonEmpty] at h
+  | .grp kind (c :: cs), h => by
+      simp only [nonEmpty, nonEmptyL, Bool.and_eq_true] at h
+      have := flagsOf_ne_nil c h.2.1
+      simp [flagsOf, this]
+
+mutual
+theorem toMultiple_body_ne : ∀ (t : Dep) (mc : MC), nonEmpty t = true → mc ∈ toMultiple t → nonEmpty mc.body = true
+  | .cond n f cs, mc, h, hm => by
+      simp only [toMultiple, List.mem_map] at hm
+      obtain ⟨c, hc, rfl⟩ := hm
+      simp only [nonEmpty, Bool.and_eq_true] at h
+      exact toMultipleL_body_ne cs c h.2 hc
+  | .grp .and cs, mc, h, hm => by
+      simp only [toMultiple] at hm
+      simp only [nonEmpty, Bool.and_eq_true] at h
+      exact toMultipleL_body_ne cs mc h.2 hm
+  | .grp .or cs, mc, h, hm => by simp only [toMultiple, List.mem_singleton] at hm; subst hm; exact h
+  | .grp .justOne cs, mc, h, hm => by simp only [toMultiple, List.mem_singleton] at hm; subst hm; exact h
+  | .grp .atMostOne cs, mc, h, hm => by simp only [toMultiple, List.mem_singleton] at hm; subst hm; exact h
+  | .leaf k r, mc, h, hm => by simp only [toMultiple, List.mem_singleton] at hm; subst hm; exact h
+theorem toMultipleL_body_ne : ∀ (cs : List Dep) (mc : MC), nonEmptyL cs = true → mc ∈ toMultipleL cs → nonEmpty mc.body = true
+  | [], mc, _, hm => by simp at hm
+  | c :: cs, mc, h, hm => by
+      simp only [toMultipleL_cons, List.mem_append] at hm
+      simp only [nonEmptyL, Bool.and_eq_true] at h
+      rcases hm with hm | hm
+      · exact toMultiple_body_ne c mc h.1 hm
+      · exact toMultipleL_body_ne cs mc h.2 hm
+end
+
+/-- every compiled constraint of a structure without empty groups has a variable -/
+theorem compiled_flags_ne_nil (ts : List Dep) (hne : nonEmptyL ts = true) (mc : MC) (hm : mc ∈ compiled ts) : mc.flags ≠ [] := by
+  have hb := flagsOf_ne_nil mc.body (toMultipleL_body_ne ts mc hne hm)
+  cases hf : flagsOf mc.body with
+  | nil => exact absurd hf hb
+  | cons x xs =>
+    have : x ∈ mc.flags := (mc.mem_flags x).mpr (Or.inr (by rw [hf]; simp))
+    exact List.ne_nil_of_mem this
+
+theorem problem_keys (inp : Inputs) (ts : List Dep) : (problem inp ts).keys = variables inp ts := by
+  simp [Solver.Problem.keys, problem, List.map_map, Function.comp_def]
+
+theorem problem_wf (inp : Inputs) (ts : List Dep) : (problem inp ts).WF where
+  keysNodup := by rw [problem_keys]; exact dedup_nodup _
+  scopes := by
+    intro c hc x hx
+    rw [problem_keys]
+    simp only [problem, List.mem_map] at hc
+    obtain ⟨mc, hmc, rfl⟩ := hc
+    unfold variables
+    rw [mem_dedup, List.mem_append]
+    exact Or.inr (toMultipleL_flags ts mc hmc x hx)
+
+theorem onOf_map (f : Tok → Bool) : ∀ vars : List Tok, onOf (vars.map fun v => (v, f v)) = vars.filter f
+  | [] => rfl
+  | v :: vs => by
+      have ih := onOf_map f vs
+      unfold onOf at ih ⊢
+      cases hf : f v <;> simp [List.filter_cons, hf, ih]
+
+theorem inProd_map (D : Tok → List Bool) (f : Tok → Bool) : ∀ vars : List Tok,
+    inProd (vars.map fun v => (v, f v)) (vars.map fun v => (v, D v)) = true ↔ ∀ v ∈ vars, f v ∈ D v
+  | [] => by simp [inProd]
+  | v :: vs => by simp [inProd, inProd_map D f vs]
+
+theorem inProd_shape (D : Tok → List Bool) : ∀ (vars : List Tok) (al : List (Tok × Bool)), vars.Nodup →
+    inProd al (vars.map fun v => (v, D v)) = true → al = vars.map fun v => (v, (al.lookup v).getD false)
+  | [], al, _, h => by
+      cases al with
+      | nil => rfl
+      | cons e es => obtain ⟨v, b⟩ := e; simp [inProd] at h
+  | w :: ws, al, hnd, h => by
+      cases al with
+      | nil => simp [inProd] at h
+      | cons e es =>
+        obtain ⟨v, b⟩ := e
+        simp only [List.map_cons, inProd, Bool.and_eq_true, beq_iff_eq] at h
+        obtain ⟨⟨h1, _⟩, h3⟩ := h
+        subst h1
+        have hnd' := List.nodup_cons.mp hnd
+        have ih := inProd_shape D ws es hnd'.2 h3
+        simp only [List.map_cons, List.lookup_cons, beq_self_eq_true, Option.getD_some, List.cons.injEq, true_and]
+        refine ih.trans ?_
+        apply List.map_congr_left
+        intro x hx
+        have : ¬ (x = v) := fun e0 => hnd'.1 (e0 ▸ hx)
+        have h' : (x == v) = false := by simpa using this
+        simp only [h']
+
+/-- the constraint the solver is given, called under a total assignment, is the compiled rule on the flags that are on -/
+theorem toConstraint_pred (mc : MC) (a : Tok → Bool) (vars : List Tok) (hsub : ∀ x ∈ mc.flags, x ∈ vars) :
+    mc.toConstraint.pred (Solver.restr mc.flags a) = mc.eval (vars.filter a) := by
+  unfold MC.toConstraint
+  simp only
+  apply MC.eval_congr
+  intro x hx
+  rw [Bool.eq_iff_iff]
+  simp only [List.contains_iff_mem, List.mem_filter, hx, hsub x hx, true_and, Solver.restr, if_true]
+  cases a x <;> simp
+
+theorem known_eq_restr (scope : List Tok) (s : Solver.Asg Tok Bool) (a : Tok → Bool)
+    (h : ∀ x ∈ scope, Solver.getVal s x = some (a x)) : Solver.known scope s = Solver.restr scope a := by
+  funext x
+  unfold Solver.known Solver.restr
+  unfold Solver.getVal at h
+  by_cases hx : x ∈ scope
+  · simp only [hx, if_true]; exact h x hx
+  · simp [hx]
+
+end Pkgcore.C10
